@@ -1470,6 +1470,7 @@ pub fn evaluate(env: &Rc<RefCell<Env>>, expr: &LocExpr) -> NRes<Obj> {
                 bound: HashSet::new(),
                 env: Rc::clone(env),
                 warn: false,
+                pending: HashSet::new(),
             };
             evaluate(env, &freeze(&mut frenv, expr)?)
         }
